@@ -284,6 +284,8 @@ def mon_seq_replay(case, lines):
                     slots[t][op[-1] & 1] = exp[2]
     if _verdict(lines) != 0:
         return None
+    if any(f[0] == 8 for f in _finals(lines)):       # VS_NO_PEEK build: the maps were not read
+        return None
     fo = {f[1]: (f[2], f[3]) for f in _finals(lines) if f[0] == 1}
     ft = {f[1]: list(f[2:]) for f in _finals(lines) if f[0] == 2}
     if fo != ref.o:
@@ -338,12 +340,19 @@ def mon_unlocked(case, lines):
     idx = [-1] * nthreads
     locked = [False] * nthreads
     inside = [False] * nthreads
+    rd = [0] * nthreads            # copies from / destructions of node pointers made inside the op's own section
+    wr = [0] * nthreads
     for i, t, k, o, v in _events(lines):
         if t >= nthreads:
             continue
         if k == K['INVOKE']:
             idx[t] += 1
             locked[t] = False
+            rd[t] = wr[t] = 0
+        elif k == K['RD_BEGIN'] and inside[t]:
+            rd[t] += 1
+        elif k == K['WR_BEGIN'] and inside[t]:
+            wr[t] += 1
         elif k == K['LOCK']:
             locked[t] = inside[t] = True
         elif k == K['UNLOCK']:
@@ -357,6 +366,25 @@ def mon_unlocked(case, lines):
             op = case['progs'][t][idx[t]]
             if (op[0] in LOCKED or (op[0] in (ADDP, ADDPT) and not (k == K['RET'] and v == -1))) and not locked[t]:
                 return 'line %d: operation %s of thread %d accessed the maps without taking mapLock' % (i, op, t)
+            if k == K['RET']:
+                # trace counterpart of soh_changes_inside_section: what the operation did to the map nodes, as told by its
+                # result, must have happened between its own lock and unlock
+                need_rd = need_wr = 0
+                if op[0] in (REMNAME, REMPRED) and v == 1:
+                    need_wr = 1                      # the erased node's pointer is destroyed
+                elif op[0] in (FINDNAME, FINDPRED, FINDPREDT) and v != 0:
+                    need_rd = 1                      # the result is a copy of the node's pointer
+                elif op[0] == COPY and v == 1:
+                    need_rd = 1
+                elif op[0] == GETOBJS:
+                    r = v
+                    while r > 0:
+                        need_rd += 1
+                        r //= 32
+                if rd[t] < need_rd or wr[t] < need_wr:
+                    return ('line %d: operation %s of thread %d returned %d, but the %s of the map node\'s pointer did not happen '
+                            'between its lock and unlock: it accessed the maps without holding mapLock'
+                            % (i, op, t, v, 'copy' if rd[t] < need_rd else 'destruction'))
     return None
 
 
